@@ -64,8 +64,12 @@ func (g *G) genC07(p *Plan) {
 	big := g.chance(0.35)
 	chunkedRun := g.chance(0.2)
 	// some runs delete and re-create the (momentarily empty) bucket under the other clients
+	// some runs of a never-versioned bucket switch versioning on under the
+	// other clients' version listings
+	c.LinSetVer = c.Backend == "mem" && c.Buckets != nil && !c.Versioned && g.chance(0.3)
+	setverAt := [2]int{g.rng.Intn(nclients), g.n(0, 4)}
 	recycler := -1
-	if c.Buckets != nil && !c.Versioned && nup == 0 && c.Backend != "singlefs" && g.chance(0.3) {
+	if c.Buckets != nil && !c.Versioned && !c.LinSetVer && nup == 0 && c.Backend != "singlefs" && g.chance(0.3) {
 		recycler = g.rng.Intn(nclients)
 	}
 	for ci := 0; ci < nclients; ci++ {
@@ -122,6 +126,9 @@ func (g *G) genC07(p *Plan) {
 				op = Op{K: "copy", B: b, Key: key(), SrcB: b, SrcKey: key()}
 			case r < 86:
 				op = Op{K: "list", B: b, Keys: allKeys}
+				if (c.Versioned || c.LinSetVer) && g.chance(0.6) {
+					op.K = "lsversions"
+				}
 			case r < 89:
 				op = Op{K: "delmulti", B: b, Keys: allKeys[:g.n(1, len(allKeys))]}
 				if c.Versioned && g.chance(0.6) {
@@ -163,6 +170,9 @@ func (g *G) genC07(p *Plan) {
 				op = Op{K: "recycle", B: b, Keys: allKeys}
 			} else if recycler >= 0 && g.chance(0.25) {
 				op = Op{K: "del", B: b, Key: key()} // keep the bucket empty often enough
+			}
+			if c.LinSetVer && ci == setverAt[0] && i == setverAt[1] {
+				ops = append(ops, Op{K: "setver", B: b, Status: "Enabled"})
 			}
 			ops = append(ops, op)
 			if role == "retrier" && op.K == "put" && g.chance(0.5) {
